@@ -3,6 +3,7 @@
 package main
 
 import (
+	"strings"
 	"context"
 	"fmt"
 	"time"
@@ -213,6 +214,87 @@ func runC19(o *out, r *rng, thorough bool, replay string) {
 		if i < 3 {
 			o.sample(map[string]any{"kind": "oracle", "input": in, "verdict_code": code})
 		}
+	}
+
+	// ---------- the consensus check over the reported decisions (HasReachedConsensus) ----------
+	// genuinely quorum-signed decisions are notified for every member; some members are given ANOTHER chain: one with a
+	// different head, or a different chain that ends at the SAME head (a tipset skipped); some members report nothing
+	nc := 30
+	if thorough {
+		nc = 300
+	}
+	for i := 0; i < nc; i++ {
+		backend := signing.NewFakeBackend()
+		g := &certGen{r: r, backend: backend, keys: map[gpbft.ActorID]gpbft.PubKey{}, nextID: 1}
+		members := 3 + r.intn(4)
+		var entries gpbft.PowerEntries
+		for k := 0; k < members; k++ {
+			entries = append(entries, g.newEntry(int64(5+r.intn(20))))
+		}
+		pt := gpbft.NewPowerTable()
+		must(pt.Add(entries...))
+		baseChain := mkChain("cb", 1)
+		orc := sim.VerifNewOracle(verifNet, backend, 0, baseChain, pt)
+		inst := orc.Inst.Instance
+		supp := *orc.Inst.SupplementalData
+		e0 := baseChain.Head().Epoch
+		x1 := mkTipset(e0+1, fmt.Sprintf("x-%d", i))
+		y2 := mkTipset(e0+2, fmt.Sprintf("y-%d", i))
+		z2 := mkTipset(e0+2, fmt.Sprintf("z-%d", i))
+		chains := []*gpbft.ECChain{
+			{TipSets: []*gpbft.TipSet{baseChain.Head(), x1, y2}}, // the common decision
+			{TipSets: []*gpbft.TipSet{baseChain.Head(), y2}},     // another chain, same head
+			{TipSets: []*gpbft.TipSet{baseChain.Head(), x1, z2}}, // another head
+		}
+		mode := r.intn(4) // 0 unanimous, 1 one member on the same-head chain, 2 one member on another head, 3 one member silent
+		odd := r.intn(members)
+		var decTerms []string
+		var mem []int64
+		reported := map[gpbft.ActorID]*gpbft.ECChain{}
+		for k, en := range pt.Entries {
+			ch := chains[0]
+			if k == odd && mode == 1 {
+				ch = chains[1]
+			}
+			if k == odd && mode == 2 {
+				ch = chains[2]
+			}
+			mem = append(mem, int64(en.ID))
+			if k == odd && mode == 3 {
+				continue
+			}
+			bf, sig := x.sign(backend, verifNet, pt.Entries, inst, 0, gpbft.DECIDE_PHASE, supp, ch, minimalQuorum(r, pt.Entries))
+			orc.Notify(en.ID, &gpbft.Justification{Vote: gpbft.Payload{Instance: inst, Round: 0, Phase: gpbft.DECIDE_PHASE, SupplementalData: supp, Value: ch}, Signers: bf, Signature: sig})
+			reported[en.ID] = ch
+			decTerms = append(decTerms, fmt.Sprintf("if k =? %d then Some %s else", en.ID, t.chain(ch)))
+		}
+		if orc.Err() != nil {
+			o.violate("honest decisions are accepted", "oracle-rejects-honest", map[string]any{"mode": mode}, orc.Err().Error())
+			continue
+		}
+		got, ok := orc.ReachedConsensus()
+		in := map[string]any{"kind": "consensus-check", "mode": []string{"unanimous", "one member decides another chain with the same head", "one member decides another head", "one member silent"}[mode], "members": members}
+		agree := len(reported) == members
+		for _, ch := range reported {
+			if !ch.Eq(chains[0]) {
+				agree = false
+			}
+		}
+		if ok && !agree {
+			o.violate("the simulator reports an error when honest participants that completed an instance disagree", "oracle-misses-disagreement", in,
+				fmt.Sprintf("HasReachedConsensus = (%v, true) although the reported decisions differ / are incomplete", got))
+		}
+		if !ok && agree {
+			o.violate("a unanimous instance is recognised as such", "oracle-rejects-consensus", in, "")
+		}
+		exp := "None"
+		if ok {
+			exp = "(Some (Some " + t.chain(got) + "))"
+		}
+		o.coqCase(fmt.Sprintf("consensus check %v", in),
+			fmt.Sprintf("match reached_consensus %s (fun k => %s None) None, %s with Some (Some a), Some (Some b) => chain_eqb a b | None, None => true | _, _ => false end",
+				cListZ(mem), strings.Join(decTerms, " "), exp))
+		o.count("oracle-consensus-"+fmt.Sprint(mode), fmt.Sprint(in, i), mode != 0)
 	}
 
 	// ---------- certchain vs the node's committee rule ----------
